@@ -22,7 +22,7 @@ type Group<S> = SubDeviceGroup<MAX, PDI, DefaultLock, S>;
 
 #[derive(Default)]
 struct Groups {
-    g: [SubDeviceGroup<MAX, PDI>; 2],
+    g: [SubDeviceGroup<MAX, PDI>; 3],
 }
 
 fn install_scripts(env: &mut Env, case: &Value) {
@@ -70,7 +70,7 @@ pub fn run(case: &Value, seed: u64) -> Obj {
     let tt = get_u64(case, "transition_timeout_ms", 500);
     let mut env = make_env(devices, frame_data, default_timeouts(tt), seed, id);
     let md = env.md;
-    let n_groups = (get_u64(case, "groups", 1) as usize).clamp(1, 2);
+    let n_groups = (get_u64(case, "groups", 1) as usize).clamp(1, 3);
     let target = get_str(case, "target", "op").to_string();
 
     // ---- setup: init, round robin into groups ----
@@ -94,7 +94,7 @@ pub fn run(case: &Value, seed: u64) -> Obj {
     let mut read_seq0 = 0u64;
 
     if let Some(groups) = groups {
-        let [g0, _g1]: [Group<PreOp>; 2] = groups.g;
+        let [g0, _g1, _g2]: [Group<PreOp>; 3] = groups.g;
         let members: Vec<Value> = g0
             .iter(md)
             .map(|sd| json!(i64::from(sd.configured_address()) - 0x1000))
